@@ -10,22 +10,27 @@
    serialised as the CLI writes it (binary iff the grammar contains bytes/bits), parsed back with the same
    spec through `Fandango.parse` (grammar + constraints); some yielded tree must have the identical
    serialisation, and `cli/utils.py: validate()` must accept the first yielded tree.
-   A witnessed word of the language that is rejected is a violation — unless the witness is outside the
-   stated class (`regexGreedy` false, evaluated by the Lean driver with `re.match` as the oracle) or falls into
-   an open finding, decided by a predicate on the witness:
-     C05/empty-matching-regex            an empty leaf that instantiates a regex terminal
-     C05/nonascii-text-next-to-binary    binary output and a text leaf with a code point >= 0x80
-     C05/open-repetition-capped          the witness is a derivation of the grammar (verified checker) but stops being
-                                         one when every open-ended `{n,}` (not `*`, `+`) is given the upper bound
-                                         "repetition cap the parser was compiled with" (verified checker on the
-                                         capped IR): it needs more than cap iterations of some `{n,}`
-     C05/nullable-completion-missed      the word is rejected, and accepted by the same code once `predict` re-completes
-                                         a symbol that was already completed empty in the column (the proposed
-                                         repair, monkeypatched in-process by c05_real.nullable_completion_repair only
-                                         for this classification): rejected because of exactly that
+4. the tie of the parser-language model (Model/Scan.lean, `C05_parser_language_iff`, `C05_roundtrip_partial`) to
+   the real parser, on EVERY word, both ways (drv_enum `judge`, with `re.match` on every (regex, position) as
+   the greedy-length oracle):
+     real accepts, model rejects (bounds taken from the real parse tree)  -> correspondence broken
+     real rejects, model accepts  -> VIOLATION: the grammar has an expansion the code's own scanners read over
+                                     the whole word, and the chart parser does not find it
+     real rejects, model rejects  -> the witness cannot be in the class (theorem); the driver's walk over the
+                                     leaves (`Scan.firstFail`, for trees of the real generator the tag-free
+                                     `Scan.firstFailU` with `re.fullmatch`) names the first leaf the scanner does
+                                     not read as written:
+         a leaf that instantiates a regex -> OUTSIDE the class C05 covers ("regex terminals that can be split in
+                                     more than one way": `re.match` prefers another length there); counted
+         a literal leaf              -> the parser does not read back what the generator wrote: a violation —
+                                     open finding C05/nonascii-text-next-to-binary when the leaf is text with a
+                                     code point >= 0x80 in binary output, C05/literal-not-read-back otherwise
+         no such leaf                -> the witness is in the class: VIOLATION C05/word-rejected
    a rejection by validate() of a word that IS parsed back is reported as C05/validate-contract (F35, repaired).
-4. correspondence: every tree of the real fuzzer goes through the verified derivation checker (drv_ir) against
-   the IR the enumerator runs on (ties the IR translation, in particular repetition bounds, to the generator).
+5. correspondence: every tree of the real fuzzer goes through the verified derivation checker (drv_ir) against
+   the IR the enumerator runs on (ties the IR translation, in particular repetition bounds, to the generator),
+   and `Grammar.fuzz` trees through the verified checker on the IR capped at the generator's repetition cap
+   (drv_enum `capvalid`, `C05_capValid_iff`: ties Model/RepCap.lean's generator model).
 """
 from __future__ import annotations
 
@@ -39,19 +44,22 @@ from harness.impl import grammar_io as gio
 from harness.impl.pool import run_pool
 
 PID = "C05"
-SIG_EMPTY = "C05/empty-matching-regex"
 SIG_NONASCII = "C05/nonascii-text-next-to-binary"
-SIG_OPENREP = "C05/open-repetition-capped"
-SIG_NULLCOMP = "C05/nullable-completion-missed"
+SIG_LITERAL = "C05/literal-not-read-back"
+SIG_REJECTED = "C05/word-rejected"
+ENUM_DEPTH, ENUM_CAP = 5, 3           # bounds of the enumerator (`C05_roundtrip_enumerated_partial`: c' >= 3, d' >= 5)
 CORPUS = VERIF / "corpus" / "C05"
 
 TRUSTED = [
     "Lean 4.33.0 kernel; axioms ⊆ {propext, Classical.choice, Quot.sound} (audited per run)",
-    "the parser side of the round trip is NOT proved (needs recogniser completeness of an Earley model): it "
-    "rests on this differential check; proved is the language side (every enumerated word has a Valid witness)",
+    "proved: the parser-LANGUAGE model (grammar IR + the code's scanners) accepts every derivation in the class "
+    "(C05_roundtrip_partial) and nothing but scanner-read expansions (C05_parser_language_iff); NOT proved: that "
+    "the Earley machine computes this language — tied per run by comparing the model's verdict with the real "
+    "Fandango.parse on every word, both ways",
     "harness/impl/grammar_io.py (real grammar -> IR JSON), tied per run by the verified checker on real "
     "fuzzer trees; harness/impl/c05_real.py (serialisation as the CLI, Fandango.parse, validate())",
-    "regex instances: fixed candidate strings filtered by CPython re.fullmatch; greedy oracle: re.match",
+    "regex instances: fixed candidate strings filtered by CPython re.fullmatch; greedy-length oracle: CPython "
+    "re.match on word[w:] for every regex terminal and every unit index w, asked the way Terminal.check asks",
     "harness/gen/grammars.py",
 ]
 
@@ -59,6 +67,12 @@ CORNER = [
     '<start> ::= r"[0-9]*" "x"\n',
     '<start> ::= b"\\xff" "é"\n',
     '<start> ::= "a" r"b?" "c"\n',
+    # regex terminals that can be split in more than one way (outside the class; Props: C05_regex_split_outside_class)
+    '<start> ::= r"[0-9]*" r"[0-9]+"\n',
+    '<start> ::= r"[0-9]+" r"[0-9]*"\n',
+    '<start> ::= r"a*" "a"\n',
+    '<start> ::= "x" r"[0-9]*"\n',
+    '<start> ::= (r"[0-9]*")* "x"\n',
     '<start> ::= ("ab"){2}\n',
     '<start> ::= ("ab"){1,3} "c"\n',
     '<start> ::= ("ab"){0,2} "a"\n',
@@ -178,79 +192,66 @@ def leaves_of(tj: list) -> list:
     return [[tag, list(p) if tag != "i" else p] for tag, p in gio.tree_leaves(tj)]
 
 
-def conservative_greedy(patterns: list, binary: bool, word: list[int], leaves: list) -> bool:
-    """for trees without tags (real fuzzer): False as soon as some leaf could be a regex instance that is not
-    the greedy match at its position"""
-    off8 = 0
-    for tag, p in leaves:
-        if tag == "i":
-            off8 += 1
-            continue
-        if tag == "t" and binary:
-            try:
-                n = len("".join(chr(c) for c in p).encode("utf-8"))
-            except UnicodeEncodeError:
-                n = len(p)
-        else:
-            n = len(p)
-        if off8 % 8 == 0:
-            rest = word[off8 // 8:]
-            val = "".join(chr(c) for c in p)
-            for kind, pat in patterns:
-                try:
-                    if kind == "bytes" and tag == "b":
-                        if re.fullmatch(pat.encode("latin-1"), bytes(p)):
-                            m = re.match(pat.encode("latin-1"), bytes(rest)) if binary else None
-                            if m is None or len(m.group(0)) != len(p):
-                                return False
-                    elif kind == "str" and tag == "t":
-                        if re.fullmatch(pat, val):
-                            m = re.match(pat, "".join(chr(u) for u in rest))
-                            if m is None or len(m.group(0)) != n:
-                                return False
-                except (re.error, ValueError):
-                    pass
-        off8 += 8 * n
-    return True
-
-
-def has_open_braces(node: list) -> bool:
+def has_open_rep(node: list) -> bool:
     k = node[0]
     if k in ("alt", "cat"):
-        return any(has_open_braces(n) for n in node[2])
+        return any(has_open_rep(n) for n in node[2])
     if k == "rep":
-        return (node[5] is None and node[2] == "braces") or has_open_braces(node[3])
+        return node[5] is None or has_open_rep(node[3])
     return False
 
 
-def classify(item: dict, res: dict, patterns: list, over_cap: Optional[bool]) -> Optional[str]:
-    """signature of the open finding a rejected witness falls into, or None.  `over_cap`: the verified checker
-    accepts the witness for the grammar but not for the grammar with `{n,}` bounded by the parser's cap."""
-    leaves = leaves_of(item["tree"])
-    tags = item.get("tags")
-    binary = res["binary"]
-    empties = [i for i, (tag, p) in enumerate(leaves) if tag in ("t", "b") and len(p) == 0]
-    if empties:
-        if tags is not None:
-            if any(tags[i] is not None for i in empties):
-                return SIG_EMPTY
-        else:
-            has_empty_re = False
-            for kind, pat in patterns:
-                try:
-                    has_empty_re |= bool(re.fullmatch(pat.encode("latin-1") if kind == "bytes" else pat,
-                                                      b"" if kind == "bytes" else ""))
-                except re.error:
-                    pass
-            if has_empty_re:
-                return SIG_EMPTY
-    if binary and any(tag == "t" and any(c >= 0x80 for c in p) for tag, p in leaves):
-        return SIG_NONASCII
-    if over_cap:
-        return SIG_OPENREP
-    if res.get("found_with_nullable_repair"):
-        return SIG_NULLCOMP
-    return None
+def max_min(node: list) -> int:
+    """largest lower bound of a repetition in an IR node"""
+    k = node[0]
+    if k in ("alt", "cat"):
+        return max([max_min(n) for n in node[2]] + [0])
+    if k == "rep":
+        return max(int(node[4]), max_min(node[3]))
+    return 0
+
+
+def tree_shape(tj: list) -> tuple[int, int]:
+    """(nesting depth counted in non-terminal nodes, largest number of children) of a tree JSON"""
+    if tj[0] != "n":
+        return 0, 0
+    d, w = 0, len(tj[4])
+    for k in tj[4]:
+        dk, wk = tree_shape(k)
+        d, w = max(d, dk), max(w, wk)
+    return d + 1, w
+
+
+def judge_request(g: dict, item: dict, r: dict) -> dict:
+    """drv_enum `judge`: the parser-language model's verdict on the word and the walk over the witness's leaves.
+    Bounds: nesting depth / repetition counts of the witness and of the tree the real parser found (never below
+    the enumerator's own bounds, so that `C05_roundtrip_enumerated_partial` applies to its trees)."""
+    d_w, w_w = tree_shape(item["tree"])
+    depth = max(ENUM_DEPTH, d_w, int(r.get("parsed_depth", 0)))
+    lo = max([max_min(body) for _, body in g["grammar"]["rules"]] + [0])
+    cap = max(ENUM_CAP, w_w, int(r.get("parsed_width", 0)), lo) + 1
+    q = {"op": "judge", "grammar": g["grammar"], "start": "<start>", "word": r["word"], "rlen": r["rlen"],
+         "binary": r["binary"], "leaves": r["leaves"], "tags": item.get("tags"), "depth": depth, "cap": cap}
+    if item.get("tags") is None:
+        q["full"] = gio_oracle(g["patterns"], item["tree"])
+        q["nregex"] = len(g["patterns"])
+    return q
+
+
+def rejected_class(j: dict, r: dict) -> tuple[Optional[str], str]:
+    """a word the real parser rejects and the model rejects, too: (signature | None = outside the class, why)"""
+    fail = j["fail"]
+    if fail is None:
+        if not j["len_ok"]:
+            return SIG_REJECTED, "the serialised leaves do not add up to the word"
+        return SIG_REJECTED, "the witness is in the class (every leaf is what the scanner reads at its column)"
+    idx, is_regex = fail
+    leaf = r["leaves"][idx]
+    if is_regex:
+        return None, f"leaf {idx} instantiates a regex terminal for which re.match prefers another length there"
+    if r["binary"] and leaf[0] == "t" and any(c >= 0x80 for c in leaf[1]):
+        return SIG_NONASCII, f"literal leaf {idx} {leaf} is written as UTF-8 and compared through Latin-1"
+    return SIG_LITERAL, f"literal leaf {idx} {leaf} is not what the scanner reads at its column"
 
 
 def load_corpus() -> list[dict]:
@@ -272,11 +273,14 @@ def replay(path: str) -> int:
         print("replay: this file names broken obligations / correspondence cases, not an input:")
         print(json.dumps({k: rp[k] for k in rp if k in ("what", "broken_obligations", "correspondence")}, indent=1)[:3000])
         return 1
-    res = run_pool("harness.impl.c05_real", [{"op": "roundtrip", "spec": rp["spec"], "patterns": rp.get("patterns", []),
-                                              "items": [{"tree": rp["witness"]}], "item_s": 30}],
+    item = {"tree": rp["witness"], "tags": rp.get("tags"), "src": rp.get("source", "replay")}
+    gen = run_pool("harness.impl.c05_real", [{"op": "gen", "spec": rp["spec"], "seed": 0, "n_fuzz": 0, "constraints": None}],
                    nproc=1, per_case_s=60, hard_s=120)[0]
-    if "items" not in res:
-        print("replay: the implementation did not answer:", res)
+    res = run_pool("harness.impl.c05_real", [{"op": "roundtrip", "spec": rp["spec"], "patterns": gen.get("patterns", []),
+                                              "items": [item], "item_s": 30}],
+                   nproc=1, per_case_s=60, hard_s=120)[0]
+    if "items" not in res or "grammar" not in gen:
+        print("replay: the implementation did not answer:", res, gen)
         return 2
     r = res["items"][0]
     print("spec:", rp["spec"].strip())
@@ -286,6 +290,14 @@ def replay(path: str) -> int:
           " validate(first) =", r.get("validate_first"), r.get("validate_err") or "", r.get("raised") or "",
           "TIMEOUT" if r.get("timeout") else "")
     bad = not r.get("found") or r.get("validate_first") is False
+    if "word" in r and "found" in r:
+        j = limited_driver_ask("drv_enum", [judge_request(gen, item, r)], timeout=60)[0]
+        print("parser-language model:", j)
+        if j is not None and not r["found"] and not j["accepts"]:
+            sig, reason = rejected_class(j, r)
+            print("class:", "outside the class C05 covers" if sig is None else sig, "-", reason)
+            if sig is None:
+                bad = False
     print("replay:", "property violated" if bad else "no violation on the current tree")
     return 1 if bad else 0
 
@@ -336,24 +348,34 @@ def main(tier: str) -> int:
     for i, (s, g) in enumerate(zip(specs, gens)):
         if "grammar" not in g:
             continue
-        cands = [("explicit", t) for t in explicit_trees(s["spec"], g["cap"])]
-        cands += [("corpus", c["witness"]) for c in corpus_by_spec.get(s["spec"], [])]
-        for src, tj in cands:
+        cands = [("explicit", t, None) for t in explicit_trees(s["spec"], g["cap"])]
+        cands += [("corpus", c["witness"], c.get("tags")) for c in corpus_by_spec.get(s["spec"], [])]
+        for src, tj, tags in cands:
             exp_reqs.append({"op": "valid", "grammar": g["grammar"], "oracle": gio_oracle(g["patterns"], tj), "tree": tj})
-            exp_ref.append((i, src, tj))
+            exp_ref.append((i, src, tj, tags))
     if exp_reqs:
-        for (i, src, tj), a in zip(exp_ref, driver_ask("drv_ir", exp_reqs, timeout=300)):
+        for (i, src, tj, tags), a in zip(exp_ref, driver_ask("drv_ir", exp_reqs, timeout=300)):
             if not a["valid"]:
                 raise MachineryError(f"hand-written witness is not a derivation of {specs[i]['spec']!r}: {json.dumps(tj)[:300]}")
-            n_leaves = len(leaves_of(tj))
-            items_by_spec.setdefault(i, []).append({"tree": tj, "tags": [None] * n_leaves if not gens[i]["patterns"] else None,
-                                                    "src": src})
+            lvs = leaves_of(tj)
+            if tags is None and not gens[i]["patterns"]:
+                tags = [None] * len(lvs)
+            if tags is not None:
+                # hand-written tags must name regexes that match their leaf as a whole (`tagOK`)
+                full = {(rid, json.dumps(leaf)) for rid, leaf in gio_oracle(gens[i]["patterns"], tj)}
+                if len(tags) != len(lvs) or any(t is not None and (t, json.dumps(l)) not in full for t, l in zip(tags, lvs)):
+                    raise MachineryError(f"hand-written tags do not fit the witness of {specs[i]['spec']!r}: {tags}")
+            items_by_spec.setdefault(i, []).append({"tree": tj, "tags": tags, "src": src})
             run.count("witness:" + src)
-    # ---- fuzzer trees, through the verified derivation checker (ties the IR translation to the generator)
+    # ---- fuzzer trees, through the verified derivation checker (ties the IR translation to the generator), and
+    # Grammar.fuzz trees of grammars with an open-ended repetition through the checker on the IR capped at the
+    # generator's repetition cap (ties RepCap's generator model: `capGrammar selAll cap`)
     valid_reqs, valid_ref = [], []
+    cap_reqs, cap_ref = [], []
     for i, (s, g) in enumerate(zip(specs, gens)):
         if "grammar" not in g:
             continue
+        open_rep = any(has_open_rep(body) for _, body in g["grammar"]["rules"])
         for f in g["fuzzed"]:
             if "tree" not in f:
                 run.count("fuzz:error")
@@ -366,6 +388,10 @@ def main(tier: str) -> int:
             oracle = gio_oracle(g["patterns"], f["tree"])
             valid_reqs.append({"op": "valid", "grammar": g["grammar"], "oracle": oracle, "tree": f["tree"]})
             valid_ref.append((i, f["tree"]))
+            if open_rep and f["src"] == "grammar.fuzz":
+                cap_reqs.append({"op": "capvalid", "grammar": g["grammar"], "oracle": oracle, "tree": f["tree"],
+                                 "cap": g["cap"], "sel": "all"})
+                cap_ref.append((i, f["tree"]))
     corr: list = []
     if valid_reqs:
         for (i, tj), a in zip(valid_ref, limited_driver_ask("drv_ir", valid_reqs)):
@@ -378,6 +404,15 @@ def main(tier: str) -> int:
             if not a["valid"]:
                 corr.append({"kind": "fuzzer tree rejected by the verified checker", "spec": specs[i]["spec"],
                              "tree": tj, "bad": a["bad"]})
+    if cap_reqs:
+        for (i, tj), a in zip(cap_ref, limited_driver_ask("drv_enum", cap_reqs)):
+            if a is None:
+                run.count("corr:cap_checker_out_of_resources")
+                continue
+            run.count("corr:fuzz_tree_within_generator_cap")
+            if not a["valid"]:
+                corr.append({"kind": "Grammar.fuzz tree is not a derivation of the IR capped at the generator's "
+                                     f"repetition cap {gens[i]['cap']}", "spec": specs[i]["spec"], "tree": tj})
     # ---- phase B: the round trip on the real code
     rt_cases, rt_idx = [], []
     for i, items in items_by_spec.items():
@@ -388,7 +423,6 @@ def main(tier: str) -> int:
             rt_idx.append(i)
     rts = run_pool("harness.impl.c05_real", rt_cases, nproc=16, per_case_s=120 if quick else 600,
                    hard_s=170 if quick else 1300)
-    greedy_reqs, greedy_ref = [], []
     records = []
     for i, case, rt in zip(rt_idx, rt_cases, rts):
         if "items" not in rt:
@@ -396,40 +430,23 @@ def main(tier: str) -> int:
             continue
         for item, r in zip(case["items"], rt["items"]):
             records.append((i, item, r))
-            if item.get("tags") is not None and "word" in r:
-                greedy_reqs.append({"op": "greedy", "binary": r["binary"], "word": r["word"], "leaves": r["leaves"],
-                                    "tags": item["tags"], "oracle": r["greedy_table"]})
-                greedy_ref.append(len(records) - 1)
-    greedy: dict[int, bool] = {}
-    if greedy_reqs:
-        for k, a in zip(greedy_ref, driver_ask("drv_enum", greedy_reqs, timeout=900)):
-            greedy[k] = a["greedy"]
-    # rejected witnesses of grammars with an open-ended {n,}: does the witness need more iterations than the cap the
-    # parser was compiled with?  (drv_enum `capvalid` = the verified checker on RepCap.capGrammar, C05_capValid_iff:
-    # a derivation of the IR, not of the IR with {n,} bounded by cap)
-    over_cap: dict[int, Optional[bool]] = {}
-    cap_reqs, cap_ref = [], []
+    # ---- the parser-language model on every word (drv_enum `judge`)
+    judge_reqs, judge_ref = [], []
     for k, (i, item, r) in enumerate(records):
-        g = gens[i]
-        if "found" not in r or (r["found"] and r["validate_first"] is not False):
-            continue
-        if not any(has_open_braces(body) for _, body in g["grammar"]["rules"]):
-            continue
-        oracle = gio_oracle(g["patterns"], item["tree"])
-        cap_reqs.append({"op": "capvalid", "grammar": g["grammar"], "oracle": oracle, "tree": item["tree"],
-                         "cap": 0, "sel": "none"})
-        cap_reqs.append({"op": "capvalid", "grammar": g["grammar"], "oracle": oracle, "tree": item["tree"],
-                         "cap": g["cap"], "sel": "braces"})
-        cap_ref.append(k)
-    if cap_reqs:
-        ans = limited_driver_ask("drv_enum", cap_reqs)
-        for j, k in enumerate(cap_ref):
-            a_open, a_cap = ans[2 * j], ans[2 * j + 1]
-            if a_open is None or a_cap is None:
-                run.count("classify:checker_out_of_resources")
-                over_cap[k] = None
-            else:
-                over_cap[k] = bool(a_open["valid"]) and not a_cap["valid"]
+        if "word" in r and "found" in r:
+            judge_reqs.append(judge_request(gens[i], item, r))
+            judge_ref.append(k)
+    judged: dict[int, Optional[dict]] = {}
+    if judge_reqs:
+        for k, a in zip(judge_ref, limited_driver_ask("drv_enum", judge_reqs, timeout=60, single_timeout=20)):
+            judged[k] = a
+        # the recogniser can be exponential (doubly recursive rules); where it did not answer within the limits, the
+        # walk over the leaves alone (linear) still decides whether the witness is in the class
+        again = [(k, q) for k, q in zip(judge_ref, judge_reqs) if judged[k] is None]
+        if again:
+            ans = driver_ask("drv_enum", [dict(q, walk_only=True) for _, q in again], timeout=900)
+            for (k, _), a in zip(again, ans):
+                judged[k] = a
     for k, (i, item, r) in enumerate(records):
         s, g = specs[i], gens[i]
         src = item["src"]
@@ -438,20 +455,40 @@ def main(tier: str) -> int:
             continue
         if r.get("timeout"):
             run.count("item:timeout")
+            run.coverage.setdefault("item_timeouts", []).append({"spec": s["spec"], "source": src, "tree": item["tree"]})
             continue
-        in_class = greedy[k] if k in greedy else conservative_greedy(g["patterns"], r["binary"], r["word"],
-                                                                      leaves_of(item["tree"]))
+        j = judged.get(k)
+        tagged = item.get("tags") is not None
         ok = bool(r["found"]) and r["validate_first"] is not False
         nontrivial = len(r["word"]) >= 2 and len(leaves_of(item["tree"])) >= 2
         run.case([s["spec"], r["word"], src], nontrivial,
-                 {"spec": s["spec"], "source": src, "word": r["word"], "accepted": ok, "in_class": in_class})
+                 {"spec": s["spec"], "source": src, "word": r["word"], "accepted": ok,
+                  "model_accepts": None if j is None else j["accepts"],
+                  "in_class": None if j is None else j["in_class"]})
         run.count("src:" + src)
         run.count(f"class:{s['cls']}")
         for f in s.get("features", []):
             run.count("feature:" + f)
-        run.count("in_class" if in_class else "out_of_class(regex split not greedy)")
         run.count("accepted" if ok else "rejected")
         run.count("len:%d" % min(len(r["word"]), 12))
+        replay_d = {"spec": s["spec"], "word": r["word"], "witness": item["tree"], "source": src,
+                    "patterns": g["patterns"], "tags": item.get("tags")}
+        if j is None:
+            run.count("model:no_answer")
+        else:
+            run.count("witness:" + ("in_class" if j["in_class"] else "not_in_class") + (":tagged" if tagged else ":untagged"))
+        if j is not None and j["accepts"] is None:
+            run.count("model:no_answer_within_limits(walk only)")
+        elif j is not None:
+            run.count("model:" + ("accepts" if j["accepts"] else "rejects") + "/real:" + ("accepts" if r["found"] else "rejects"))
+            if j["in_class"] and not j["accepts"]:
+                # C05_roundtrip_partial / C05_untagged_in_class: impossible for a derivation within the bounds
+                corr.append({"kind": "the driver answers in_class and not accepts (contradicts C05_roundtrip_partial)",
+                             "spec": s["spec"], "word": r["word"], "tree": item["tree"], "tags": item.get("tags")})
+            if r["found"] and not j["accepts"]:
+                corr.append({"kind": "the real parser accepts a word the parser-language model rejects",
+                             "spec": s["spec"], "word": r["word"], "tree": item["tree"],
+                             "bounds": [r.get("parsed_depth"), r.get("parsed_width")]})
         if "validate_accepts_mismatch" in r:
             run.count("validate:negative_control")
             if r["validate_accepts_mismatch"] is not None:
@@ -462,8 +499,6 @@ def main(tier: str) -> int:
                             "patterns": g["patterns"], "other_word": r["validate_accepts_mismatch"]})
         if ok:
             continue
-        replay_d = {"spec": s["spec"], "word": r["word"], "witness": item["tree"], "source": src,
-                    "patterns": g["patterns"]}
         why = r.get("raised") or ("validate() rejects the first tree: " + str(r.get("validate_err"))
                                   if r["found"] else f"no tree with the identical serialisation among {r['n_trees']} yielded")
         what = (f"{s['spec'].strip()!r}: the {'binary' if r['binary'] else 'text'} output {r['word']} of a "
@@ -472,19 +507,29 @@ def main(tier: str) -> int:
             # the word is parsed back; only the CLI's validate() objects (F35, repaired by 65b290c5)
             run.report("C05/validate-contract", what, replay_d)
             continue
-        sig = classify(item, r, g["patterns"], over_cap.get(k))
-        if r.get("repair_timeout"):
-            run.count("classify:repair_attempt_timeout")
-        if sig is None and not in_class:
-            run.count("rejected:out_of_class")
+        if j is None:
+            # neither the model's verdict nor the walk over the leaves: nothing excuses the rejection
+            run.report(SIG_REJECTED, what + "; the model driver did not answer", replay_d)
             continue
-        if sig is not None:
-            run.count("known:" + sig)
-            run.count(f"known:{sig}:{src}")
-            if run.counters["known:" + sig] <= 3:      # a few witnesses per open finding are enough on the console
-                run.report(sig, what, replay_d)
-        else:
-            run.report("C05/word-rejected", what, replay_d)
+        if j["accepts"] is None and j["in_class"]:
+            # the recogniser did not answer, but the witness is in the class: rejected against C05_roundtrip_partial
+            run.report(SIG_REJECTED, what + "; the witness is in the class (every leaf is what the scanner reads "
+                       "at its column)", replay_d)
+            continue
+        if j["accepts"]:
+            run.count("rejected:model_accepts")
+            run.report(SIG_REJECTED, what + "; the grammar has an expansion that the code's own scanners read over "
+                       "the whole word (parser-language model accepts)", replay_d)
+            continue
+        sig, reason = rejected_class(j, r)
+        if sig is None:
+            run.count("rejected:outside_class(regex split)")
+            run.count(f"rejected:outside_class:{src}")
+            continue
+        run.count("rejected:" + sig)
+        run.count(f"rejected:{sig}:{src}")
+        if run.counters["rejected:" + sig] <= 3:      # a few witnesses per signature are enough on the console
+            run.report(sig, what + "; " + reason, replay_d)
     run.coverage["traces_validated_against_impl"] = run.counters.get("corr:fuzz_tree_checked", 0)
     run.coverage["correspondence_disagreements"] = len(corr)
     run.coverage["disagreement_samples"] = corr[:5]
@@ -506,7 +551,8 @@ def main(tier: str) -> int:
              "nested/bounded repetitions; words: Grammar.fuzz, Fandango.fuzz (constrained specs, incl. runs in "
              "which the tuner raises the repetition cap), Lean enumerator (depth 5, repetition counts <= 3, 4 "
              "instances per regex, truncated lists, rotated alternatives), hand-written witnesses around the "
-             "repetition cap (checked by the verified checker); a case is non-trivial when the word has >= 2 "
+             "repetition cap (checked by the verified checker); every word also goes through the parser-language "
+             "model (drv_enum judge); a case is non-trivial when the word has >= 2 "
              "units and the witness >= 2 leaves; distinct by (spec, word, source)",
         trusted_base=TRUSTED)
 
